@@ -73,6 +73,10 @@ package electrum
 // (quantified slice contents are outside the verifier).
 //@ ghost pendingDereg bool
 //@ interface TXObserver.Callback
+// C18: an observer's callback re-enters a swap's state machine (swap mutex), and
+// registration (under the swap mutex) takes the subscriber's lock: callbacks must
+// not run while the subscriber's lock is held
+//@ requires @C18,in:blockHeight not-under-the-subscriber-lock: !holds(&h.mu)
 //@ requires @C20 previous-report-deregistered: !ghost.pendingDereg
 //@ sets ghost.pendingDereg = (result0 && (result1 == nil || errors.Is(result1, swap.ErrSwapDoesNotExist)))
 //@ assigns nothing
@@ -85,7 +89,7 @@ package electrum
 //@ assigns h.txObservers
 
 //@ func (*liquidBlockHeaderSubscriber).Update
-//@ property C20
-//@ requires h != nil && !ghost.pendingDereg
+//@ property C20 C18
+//@ requires h != nil && !ghost.pendingDereg && !holds(&h.mu)
 //@ loop 0 invariant !ghost.pendingDereg
 //@ ensures @C20 reported-observers-deregistered: !ghost.pendingDereg
